@@ -562,4 +562,29 @@ def removeFlags (site : String) : Bool × Bool :=
   | some calls => (calls.any objectDeletes.contains, calls.any confirmDeletes.contains)
   | none => (false, false)
 
+/-! ## Part 3 — signature decoding (`EthAddressFromSignature` / `TronAddressFromSignature`), curve recovery opaque -/
+
+/-- the length guard and the recovery-byte normalisation, with the constants of the source (`SigRule`, regenerated):
+`if len(signature) < minLen → error`; `if signature[64] ∈ vNorm { signature[64] -= vSub }` -/
+def decodeSig (r : SigRule) (sig : List Nat) : Option (List Nat) :=
+  if sig.length < r.minLenN then none
+  else
+    let v := sig.getD 64 0
+    some (if r.vNormN.contains v then sig.set 64 (v - r.vSubN) else sig)
+
+/-- the prefix constant a decoder hashes in front of the checkpoint -/
+def prefixOf (r : SigRule) : List Nat :=
+  if r.pfx == "signaturePrefix" then goSignPrefix else if r.pfx == "tronSignaturePrefix" then tronSignPrefix else []
+
+/-- `…AddressFromSignature`: `H` = Keccak-256, `ec hash sig65` = go-ethereum's `SigToPub` + address text (both opaque) -/
+def recoverVia (r : SigRule) (H : List Nat → List Nat) (ec : List Nat → List Nat → Option String)
+    (digest sig : List Nat) : Option String :=
+  match decodeSig r sig with
+  | none => none
+  | some s' => ec (H (prefixOf r ++ digest)) s'
+
+def sigRuleFor (tron : Bool) : SigRule :=
+  (sigRules.find? (fun r => r.func == (if tron then "TronAddressFromSignature" else "EthAddressFromSignature"))).getD
+    ⟨"", "", [], "", "", "", 0, [], 0⟩
+
 end FxVerif.Model.C12
